@@ -152,6 +152,9 @@ class Ctx:
             self.tree, self.nfiles = th, n
             self.build_status[cfg] = status
             self.facts_dir = d
+            if status != "ok" and cfg != "serde":
+                # a tree that does not compile cannot be analysed (and cannot pass the existing tests either)
+                raise CheckerError("the tree does not build in configuration `%s` (see %s/cargo.%s.log)" % (cfg, d, cfg))
             self._facts[cfg] = Facts(d, cfg) if status == "ok" else None
         return self._facts[cfg]
 
@@ -164,7 +167,7 @@ def load_known():
         return json.load(f)
 
 
-def run_property(pid, rules, tier, level_text, assumptions):
+def run_property(pid, rules, tier, level_text, assumptions, extra=None):
     """rules: list of callables ctx -> RuleResult (or list of RuleResult)."""
     t0 = time.time()
     ctx = Ctx(tier)
@@ -192,8 +195,9 @@ def run_property(pid, rules, tier, level_text, assumptions):
             print("     info: %s" % i)
     for v, k in known_hit:
         print("KNOWN-FINDING: property=%s %s -- %s [%s]" % (pid, v.key, k.get("what", v.msg), v.loc or ""))
+    no_ev = bool(os.environ.get("LINFA_NO_EVIDENCE"))
     os.makedirs(os.path.join(VERIF, "evidence"), exist_ok=True)
-    replay_dir = os.path.join(VERIF, "evidence", "replay")
+    replay_dir = os.path.join(VERIF, "evidence", "replay") if not no_ev else os.path.join(CACHE, "replay-scratch")
     for i, v in enumerate(viol):
         os.makedirs(replay_dir, exist_ok=True)
         rp = os.path.join(replay_dir, "%s-%d.json" % (pid, i))
@@ -242,8 +246,11 @@ def run_property(pid, rules, tier, level_text, assumptions):
         "wall_s": round(time.time() - t0, 2),
         "violations": len(viol),
     }
-    with open(os.path.join(VERIF, "evidence", "%s.json" % pid), "w") as f:
-        json.dump(ev, f, indent=1)
+    if extra:
+        ev["coverage"].update(extra)
+    if not no_ev:
+        with open(os.path.join(VERIF, "evidence", "%s.json" % pid), "w") as f:
+            json.dump(ev, f, indent=1)
     print("== %s: %d rule instances, %d/%d obligations discharged, %d known findings, %d violations, %.1fs" % (
         pid, n_inst, discharged, obligations, len(known_hit), len(viol), time.time() - t0))
     return 1 if viol else 0
